@@ -79,6 +79,8 @@ type Exec struct {
 	curPos          string
 	overrides       map[string]*FuncV
 	strictPrefs     []*Term
+	race            *raceState
+	forkVC          vclock
 	uncheckedAssume bool
 	inOverride      bool
 }
